@@ -7,6 +7,7 @@ require (
 	github.com/cockroachdb/pebble/v2 v2.1.6
 	github.com/drand/kyber v1.3.2
 	github.com/ethereum/go-ethereum v1.17.4
+	github.com/holiman/uint256 v1.3.2
 	google.golang.org/protobuf v1.36.11
 )
 
@@ -36,7 +37,6 @@ require (
 	github.com/golang/snappy v1.0.0 // indirect
 	github.com/google/btree v1.1.3 // indirect
 	github.com/hashicorp/golang-lru/v2 v2.0.7 // indirect
-	github.com/holiman/uint256 v1.3.2 // indirect
 	github.com/kilic/bls12-381 v0.1.0 // indirect
 	github.com/klauspost/compress v1.19.0 // indirect
 	github.com/kr/pretty v0.3.1 // indirect
